@@ -102,8 +102,13 @@ macro_rules! impl_multi_subscription {
         self.0.rc_deref_mut().as_mut().map_or(0, |vec| vec.len())
       }
       pub fn append(&mut self, v: $box_ty) {
-        if let Some(vec) = self.0.rc_deref_mut().as_mut() {
+        let mut inner = self.0.rc_deref_mut();
+        if let Some(vec) = inner.as_mut() {
           vec.push(Some(v));
+        } else {
+          // already unsubscribed: tear the late addition down at once
+          drop(inner);
+          v.unsubscribe();
         }
       }
       pub fn retain(&mut self) {
